@@ -204,7 +204,10 @@ func (cache *dirCache) retrieveFiles(target *core.BuildTarget, cacheDir string, 
 	}
 	if cache.Compress {
 		log.Debug("Retrieving %s: %s from compressed cache", target.Label, cacheDir)
-		return true, cache.retrieveCompressed(target, cacheDir)
+		if err := cache.retrieveCompressed(target, cacheDir); err != nil {
+			return false, err
+		}
+		return true, nil
 	}
 	for _, out := range outs {
 		realOut, err := cache.ensureRetrieveReady(target, out)
